@@ -94,7 +94,7 @@ func diffBigFloatAware(c *Check, want, got []string) string {
 	g2 := append([]string{}, got...)
 	for i := range w2 {
 		if strings.HasPrefix(w2[i], "BF~") {
-			if i < len(g2) && g2[i] != strings.TrimPrefix(w2[i], "BF~") && strings.HasPrefix(g2[i], "N:") {
+			if i < len(g2) && g2[i] != strings.TrimPrefix(w2[i], "BF~") && (strings.HasPrefix(g2[i], "N:") || strings.HasPrefix(g2[i], "D:") || strings.HasPrefix(g2[i], "Inf:") || strings.HasPrefix(g2[i], "Z:")) { // whatever decimal it was rounded to
 				if c.Finding("bigfloat-rounded-in-cbe") {
 					g2[i] = w2[i]
 					continue
